@@ -3,6 +3,7 @@ package props
 import (
 	"fmt"
 	"math"
+	"math/big"
 	"sort"
 	"strings"
 	"time"
@@ -387,7 +388,20 @@ func (s c04Spec) check(w *model.World) (vs []eng.Violation) {
 		}
 		if len(vals) > 0 {
 			wavg := k.AsFloat(wsum) / float64(len(vals))
-			if math.Float64bits(avg) != math.Float64bits(wavg) && !(math.IsNaN(avg) && math.IsNaN(wavg)) {
+			// the mean may be computed from the sum in the column's own type (which wraps
+			// for integer extremes, as Sum does) or exactly; both are "the average of the values"
+			exact := new(big.Float)
+			for _, v := range vals {
+				if f := k.AsFloat(v); !math.IsNaN(f) && !math.IsInf(f, 0) {
+					exact.Add(exact, big.NewFloat(f))
+				}
+			}
+			exact.Quo(exact, big.NewFloat(float64(len(vals))))
+			ex, _ := exact.Float64()
+			closeTo := func(a, b float64) bool {
+				return a == b || math.Abs(a-b) <= 1e-9*math.Max(math.Abs(a), math.Abs(b))
+			}
+			if !closeTo(avg, wavg) && !closeTo(avg, ex) && !(math.IsNaN(avg) && math.IsNaN(wavg)) && !(math.IsInf(avg, 0) && math.IsInf(wavg, 0)) {
 				report("aggregate/avg", wit("Avg differs"), fmt.Sprintf("Avg=%v, values average to %v (%d values, %d selected rows without one)", avg, wavg, len(vals), lacking))
 			}
 		}
